@@ -13,6 +13,11 @@ MUTATORS = {"append", "appendleft", "pop", "popleft", "add", "update", "clear", 
             "extend", "insert", "discard", "move_to_end", "popitem", "sort", "reverse"}
 
 
+def _has_nan(x):
+    """nan has no encoding in the real-valued float sort: lists holding it stay python-level (VPyList)"""
+    return isinstance(x, VNaN) or (isinstance(x, VTuple) and any(_has_nan(y) for y in x.items))
+
+
 class Interp:
     def __init__(self, ver, path):
         self.ver = ver
@@ -615,7 +620,7 @@ class Interp:
         if hint_type is None:
             if not items:
                 et = None
-            elif any(isinstance(x, (VDictRec, VObj)) for x in items):
+            elif any(isinstance(x, (VDictRec, VObj)) or _has_nan(x) for x in items):
                 # elements without a symbolic encoding (dict literals / heap objects): concrete python-level list
                 return VPyList(items)
             else:
